@@ -5,6 +5,7 @@ import (
 	"context"
 	"fmt"
 	"net"
+	"os"
 	"reflect"
 	"strings"
 	"sync"
@@ -888,12 +889,25 @@ func TestLLMNRClientQuery(t *testing.T) {
 		return queryCase{K: rapid.IntRange(1, 6).Draw(t, "queries"), Foreign: rapid.SliceOfN(rapid.Uint16(), 0, 4).Draw(t, "foreign")}
 	}, func(c queryCase) []vf.Finding {
 		fs := checkLLMNRQuery(c)
+		if os.Getenv("VERIF_FORCE_NO_MULTICAST") != "" { // self-test of the skip path below
+			queryConclusive, fs = false, nil
+		}
 		if !queryConclusive {
 			s.Class("inconclusive (no multicast route, or two queries drew the same id)")
+		} else {
+			conclusiveQueries++
 		}
 		return fs
 	}, func(c queryCase) bool { return queryConclusive })
+	if conclusiveQueries == 0 && !t.Failed() {
+		// Client.Query sends to the LLMNR multicast group; where the host has no multicast route every call
+		// fails before anything can be judged. That is a property of the machine, not of the library and not
+		// of the generator: the sub-check reports itself as skipped instead of as a dead generator.
+		t.Skip("no LLMNR multicast route on this host: Client.Query could not be exercised")
+	}
 }
+
+var conclusiveQueries int
 
 // ---- stopping twice, stopping what was never started ----------------------------------------------------------------
 
